@@ -48,6 +48,24 @@ CLAIMS = [
              "is indistinguishable from a crash tail) listed in known_findings.json; three defects repaired by fix: commits",
      "level": "fault_enumeration",
      "ref": "DESIGN.md section 6 (C13)"},
+    {"id": "C03",
+     "technique": "TLC-generated histories x TLC-enumerated fault plans (FaultGen.tla) -> real backend under syscall fault injection -> TLC trace validation (KVTrace live, DurabilityOracle recovered)",
+     "text": "For each TLC history a fault-free run is recorded; FaultGen.tla, instantiated with the recorded call counts, enumerates (kind, k-th call, "
+             "errno class, partial-write class, fault during rollback / retry) plans; each (history, plan) runs on the real persistent backend under "
+             "the LD_PRELOAD shim in injection mode; invalid-input classes (NaN, Inf, wrong dimension, zero / overflowing norm, index full) are "
+             "inserted as new ids and as overwrites. TLC judges the live census after every call (failed call = identity) and the strictly "
+             "recovered census after the whole history and right after the first failing call.",
+     "note": "libc-level fault injection; backend-level write paths (TieredEngine bulk load and drain repair call the same HnswBackend::insert); one "
+             "known finding (failed rollback truncate leaves complete frames) listed; two defects repaired by fix: commits",
+     "ref": "DESIGN.md section 6 (C03)"},
+    {"id": "C18",
+     "technique": "TLC enumerates the full configuration cross product with MustReject (Config.tla) -> every row loaded through the real KyroDbConfig::load+validate in 4 renderings and sampled through the real server binary -> TLC trace validation (ConfigTrace.tla)",
+     "text": "Config.tla transcribes the ten clauses of the property; TLC enumerates all 36 288 rows (54 432 thorough) with their verdicts; cfglab renders "
+             "each as TOML, YAML, environment overrides and file+overrides with seeded spelling variants and loads it through the real loader; all "
+             "single-clause boundary rows also start the real kyrodb_server binary. ConfigTrace.tla (TLC) checks MustReject => rejected for every "
+             "rendering and computes per-clause non-vacuity.",
+     "note": "exhaustive over the discrete safety-relevant settings; remaining settings fixed to loadable values; server-level rows limited to hosts the sandbox can bind",
+     "ref": "DESIGN.md section 6 (C18)"},
 ]
 
 _PENDING = "not yet covered by the specification suite in this revision (see DESIGN.md section 11 for the construction order)"
